@@ -65,7 +65,7 @@ def main():
             result["baseline_missing"] = baseline_ok(repo)
         # run checks from a scratch copy of /verif so evidence/replays of the real tree are untouched
         vcopy = os.path.join(tmp, "verif")
-        shutil.copytree(ROOT, vcopy, ignore=shutil.ignore_patterns(".git", "evidence", "replays", "__pycache__", "seeded", ".deps"))
+        shutil.copytree(ROOT, vcopy, ignore=shutil.ignore_patterns(".git", "evidence", "__pycache__", "seeded", ".deps"))
         for p in props:
             env = dict(os.environ, VERIF_REPO=repo)
             r = subprocess.run([os.path.join(vcopy, "run.py"), p, "--tier", tier, "--no-shrink"] + extra, cwd=vcopy, env=env, capture_output=True, text=True)
